@@ -8,6 +8,14 @@ CLAIMS = {
             "Every obligation carrying the property is generated from the current source of the folding functions and discharged by an SMT solver for all int32 operand pairs; counter-models are replayed on the real function.",
             "Trusted: pyvc's encoding of Python (DESIGN §2.1, CPython differential self-test), spec S1 (spec/arith32.py), CPython's int(text, base) for literal parsing, z3/cvc5.",
             "DESIGN §4 C11"),
+    "C01": ("other", "contract chain K1..K9: pyvc VCs on the real folding/lowering functions (P) + bounded end-to-end validation of the real pipeline's blueprint (S2 circuit model) against the S3 source semantics by SMT over all int32 inputs (B)",
+            "P obligations are discharged for all inputs; the program-shape quantifier is covered only by an enumerated scope (bounded stand-in, labelled, never counted as proved).",
+            "Trusted: S1/S2/S3 specs, pyvc encoding, composition lemma; known findings KF-K7-crosstalk and KF-C01-comparison-result-type are reported, not suppressed silently.",
+            "DESIGN §4 C01"),
+    "C10": ("other", "relational pair lemma on the real CSE key functions + VCs on IR folding (pyvc, unbounded) + bounded optimised-vs-unoptimised validation against S3 by SMT",
+            "Key injectivity (equal keys => equal operator, operands, output type, output mode) is proved for every pair of paths of the real _make_key/_value_key; whole-pass behaviour is checked on an enumerated scope (bounded).",
+            "Trusted: f-strings modelled as tuples, S1/S2/S3, composition lemma, 'any spanning tree induces the same partition'.",
+            "DESIGN §4 C10"),
     "C16": ("other", "contract-based deductive verification (pyvc VCs with inductive loop invariants + variants on the real ForStmt.get_iteration_values) plus bounded stand-ins for the lowering plumbing",
             "The iteration sequence is proved for all (start, stop, step) and list iterators; the per-iteration scoping in the analyzer/lowerer is checked by bounded stand-ins, labelled as such.",
             "Trusted: pyvc encoding, composition lemma, 'IR equal up to fresh ids => same circuit'.",
